@@ -25,6 +25,7 @@ CONSTANTS
     LotTargets, \* set of functions [SUBSET C -> Int \ {0}] (rebalance to numbers of contracts)
     Reqs,       \* set of rebalancing requests (see LedgerOps) for op "rebal"
     Steps,      \* set of clock increments (years) for rebalances / accruals
+    MaxClk,     \* bound on the model clock in years (keeps compounded rationals within 32 bits)
     MaxRebal,   \* bound on checkpointed rebalances (keeps exact rationals within TLC's 32-bit integers)
     MaxDepth
 
@@ -108,6 +109,7 @@ DoRebalance(req, dt, tag) ==
         execp(c) == AcqPrice(st, c, Sign(r.trades[c]))
         done == r.trades # <<>> /\ r.out \in {"ok", "broke"}     \* trades were executed
     IN  /\ track < MaxRebal
+        /\ t <= MaxClk
         /\ st' = r.st
         /\ clk' = t
         /\ h' = [paid |-> [c \in C |-> IF done /\ c \in DOMAIN r.trades
@@ -129,6 +131,7 @@ Rebal(req, dt) ==
 
 Accrue(dt, accrue) ==
     /\ (IF accrue THEN "accrue" ELSE "query") \in Ops
+    /\ clk + dt <= MaxClk
     /\ LET t == clk + dt
            r == AccrueF(st, t, accrue)
        IN  /\ st' = r.st
